@@ -562,6 +562,13 @@ def analyse_update(url):
     return names, path
 
 
+def utf8_view(v):
+    """how a byte string of the server (here: latin-1 str, one char per byte) reads back from a JSON text written with
+    error_handler_t::replace: decoded as UTF-8, every run of undecodable bytes collapsed to one U+FFFD"""
+    t = v.encode("latin-1", "replace").decode("utf-8", "replace")
+    return re.sub("\ufffd+", "\ufffd", t)
+
+
 def classify_update_response(url, st, hd, body):
     names, path = analyse_update(url)
     known = [n for n in names if n in UPDATE_KNOWN]
@@ -588,7 +595,7 @@ def classify_update_response(url, st, hd, body):
                 fails.append(("updatecache-unescaped-json", "cache_names reads back as %r, request said %r (pasted unescaped into the JSON text)" % (listed, names)))
             elif sorted(set(listed)) != sorted(set(known)):
                 fails.append(("updatecache-names-unknown-cache", "success object names %s, the caches actually refreshed are %s (an unknown name after a known one is reported as refreshed)" % (listed, known)))
-            if j.get("custom_cache_path") != path:
+            if re.sub("\ufffd+", "\ufffd", str(j.get("custom_cache_path"))) != utf8_view(path):
                 fails.append(("updatecache-unescaped-json" if quoted else "updatecache-wrong-object", "custom_cache_path reads back as %r, request said %r%s" % (
                     j.get("custom_cache_path"), path, " (pasted unescaped into the JSON text)" if quoted else "")))
     elif j.get("status") != "error":
@@ -774,6 +781,9 @@ UPDATE_CATALOGUE = [
     "/updateCache?names=agencies&path=a%22b", "/updateCache?names=agencies,%22x", "/updateCache?names=agencies&path=a%5Cb", "/updateCache?names=agencies&path=a%0Ab",
     "/updateCache?names=agencies&custom_path=%7B%22x%22%3A1%7D", "/updateCache?names=agencies=x", "/updateCache?names=agencies&path=nonexistent-directory",
     "/updateCache?names=agencies&path=" + "p" * 3000,
+    # bytes that are not UTF-8 (the answer echoes the path; a JSON writer that throws on them leaves the request unanswered), and valid multi-byte UTF-8
+    "/updateCache?names=agencies&path=%ff", "/updateCache?names=agencies&path=a%c3%28b", "/updateCache?names=nodes&custom_path=%fe%fe%fe", "/updateCache?names=agencies&path=%c3%a9t%c3%a9",
+    "/updateCache?names=agencies%ff", "/updateCache?names=%ff,agencies", "/updateCache?names=agencies&path=%e2%82",
 ]
 
 
@@ -928,11 +938,11 @@ def run_c18(tier, seed, replay=None, theorems=None, module=None):
         gupd = mk("update", gens[0])
         urng = random.Random(seed * 1000003 + 7)
         upd_urls = list(UPDATE_CATALOGUE)
-        pool = sorted(UPDATE_KNOWN) + ["foo", "", "Agencies", "all%20", "x" * 50, "%22", "a%22b", "schedules%00", "a%5Cb"]
+        pool = sorted(UPDATE_KNOWN) + ["foo", "", "Agencies", "all%20", "x" * 50, "%22", "a%22b", "schedules%00", "a%5Cb", "%ff", "nodes%fe"]
         for _ in range(30 if tier != "thorough" else 300):
             ns_ = [urng.choice(pool) for _ in range(urng.randint(0, 4))]
             u = "/updateCache?%s=%s" % (urng.choice(UPDATE_NAME_KEYS), ",".join(ns_))
-            if urng.random() < 0.3: u += "&%s=%s" % (urng.choice(UPDATE_PATH_KEYS), urng.choice(["", "x", "a%22b", "..", "%2Ftmp"]))
+            if urng.random() < 0.3: u += "&%s=%s" % (urng.choice(UPDATE_PATH_KEYS), urng.choice(["", "x", "a%22b", "..", "%2Ftmp", "%ff", "x%c3%28", "%e2%82", "%c3%a9"]))
             upd_urls.append(u)
         plans.append((gupd, upd_urls))
         gpair = mk("pairs", ddef)            # defaults / no-limit comparisons run on their own server
